@@ -248,7 +248,9 @@ surv0_ctx_send(void *arg, nni_aio *aio)
 
 	// save the survey time, so we know the maximum timeout to use when
 	// waiting for receive
-	ctx->expire = nni_clock() + survey_time;
+	// (NNG_DURATION_INFINITE: the survey never expires)
+	ctx->expire =
+	    (survey_time < 0) ? NNI_TIME_NEVER : nni_clock() + survey_time;
 
 	nni_mtx_unlock(&sock->mtx);
 	nni_msg_free(msg);
